@@ -85,6 +85,8 @@ def mc_walk(name, cfg, consts=None, workers=8, threads=8, trace_every=0, timeout
     meta = os.path.join(OUT, "tlc", name)
     shutil.rmtree(meta, ignore_errors=True)
     tlclog = os.path.join(OUT, "tlc", name + ".log")
+    if os.path.exists(tlclog):
+        os.remove(tlclog)      # a stale log of an earlier run must not speak for this one
     viol = os.path.join(OUT, "tlc", name + ".viol")
     trace = os.path.join(OUT, "trace", name + ".ndjson")
     tlc = ["timeout", str(timeout), "tlc", "-workers", str(workers), "-metadir", meta, "-cleanup", "-noGenerateSpecTE",
@@ -133,6 +135,8 @@ def mc_sim(name, cfg, consts, num, depth, seed, workers=4, threads=8, timeout=15
     meta = os.path.join(OUT, "tlc", name)
     shutil.rmtree(meta, ignore_errors=True)
     tlclog = os.path.join(OUT, "tlc", name + ".log")
+    if os.path.exists(tlclog):
+        os.remove(tlclog)      # a stale log of an earlier run must not speak for this one
     viol = os.path.join(OUT, "tlc", name + ".viol")
     tlc = ["timeout", str(timeout), "tlc", "-workers", str(workers), "-simulate", "num=%d" % num, "-depth", str(depth), "-seed", str(seed),
            "-metadir", meta, "-cleanup", "-noGenerateSpecTE", "-config", cfgpath, "MC_Msi.tla"]
@@ -172,6 +176,8 @@ def mc_pipe(name, module, cfgtext, driver_args, summary_tag, workers=10, timeout
     meta = os.path.join(OUT, "tlc", name)
     shutil.rmtree(meta, ignore_errors=True)
     tlclog = os.path.join(OUT, "tlc", name + ".log")
+    if os.path.exists(tlclog):
+        os.remove(tlclog)      # a stale log of an earlier run must not speak for this one
     viol = os.path.join(OUT, "tlc", name + ".viol")
     tlc = ["timeout", str(timeout), "tlc", "-workers", str(workers), "-metadir", meta, "-cleanup", "-noGenerateSpecTE",
            "-config", cfgpath, module + ".tla"]
